@@ -19,28 +19,47 @@ class MustStoreRow(MustAnalysis):
         self.rname = rname
         self.loopvar = loopvar
         self.missing = []
+        # names whose value is written into the row somewhere in the loop (cm)
+        self.sources = set()
+        for n in ast.walk(loop):
+            if isinstance(n, ast.Assign) and any(isinstance(t, ast.Subscript) and base_name(t) == rname for t in n.targets):
+                if any(isinstance(c, ast.Call) and c01.callname(c) == "confusion_matrix" for c in ast.walk(n.value)):
+                    continue    # the counts are stored where they are computed
+                v = n.value
+                while isinstance(v, ast.Call) and v.args:
+                    v = v.args[0]           # nan_to_num(cm, ...) -> cm
+                self.sources |= {x.id for x in ast.walk(v) if isinstance(x, ast.Name)}
+        self.sources -= {rname, loopvar, "np"}
 
     def gen(self, stmt):
+        out = ()
         if isinstance(stmt, ast.Assign):
+            # 'src': the matrix that is to be stored for this annotator has been computed (by counting or as
+            # the zero matrix) - from then on the path owes a store of the row
+            if any(isinstance(t, ast.Name) and t.id in self.sources for t in stmt.targets):
+                out += ("counted",)
             for t in stmt.targets:
                 if isinstance(t, ast.Subscript) and base_name(t) == self.rname:
                     idx = t.slice.elts[0] if isinstance(t.slice, ast.Tuple) and t.slice.elts else t.slice
                     if isinstance(idx, ast.Name) and idx.id == self.loopvar:
-                        return ("row",)
-        return ()
+                        out += ("row",)
+        return out
 
     def loop_iter_kill(self, loop):
-        return ("row",) if loop is self.loop else ()
+        return ("row", "counted") if loop is self.loop else ()
 
     def on_loop_body_exit(self, loop, states_in, states_out):
         if loop is not self.loop:
             return
-        self.missing = [s for s in states_out if "row" not in s.tokens]
+        # the result array is created zero-filled: an annotator without labels keeps the zero
+        # matrix; whenever the counts WERE computed they have to be stored
+        self.missing = [s for s in states_out if "counted" in s.tokens and "row" not in s.tokens]
 
 
 def run(p, report, tier):
-    report.rule("R17.1", "ext_confusion_matrix: on every feasible path through the per-annotator loop body the output "
-                "slice conf_matrices[a] is stored (path facts include the validated value set of `normalize`)", floor=1)
+    report.rule("R17.1", "ext_confusion_matrix: on every feasible path through the per-annotator loop body on which the "
+                "annotator's confusion counts are computed, the output slice conf_matrices[a] is stored (path facts "
+                "include the validated value set of `normalize`); the result array is created zero-filled", floor=1)
     report.rule("R17.2", "compute_vote_vectors: the weights operand of np.bincount is zeroed at the mask of missing "
                 "entries by the last store that dominates the call; the mask is computed by is_unlabeled on the "
                 "encoded labels with the encoder's sentinel", floor=3)
@@ -111,7 +130,9 @@ def run(p, report, tier):
     for n in ast.walk(f.node):
         if isinstance(n, ast.Assign) and any(isinstance(t, ast.Subscript) and base_name(t) == rname for t in n.targets):
             back = closure(names_in(n.value), fedges)
-            ok = bool(back & cms) or bool(names_in(n.value) & cms)
+            direct = any(isinstance(c, ast.Call) and c01.callname(c) == "confusion_matrix" for c in ast.walk(n.value))
+            # a later whole-array normalisation `R = R / R.sum(...)` derives from R itself
+            ok = bool(back & cms) or bool(names_in(n.value) & cms) or direct
             report.add("R17.1", f.qual, f"`{norm_stmt(n, 70)}` stores the counted matrix", f"{f.file}:{n.lineno}", ok,
                        detail="derived from sklearn's confusion_matrix of the annotator" if ok else
                        "a value that does not derive from the annotator's confusion counts is written into the result")
